@@ -618,11 +618,23 @@ func runPlan(r *vf.Run, bin, dir string, idx int, race bool) (stderr []byte, set
 		proc.Stop(30 * time.Second)
 		stderr = proc.Stderr()
 		headline, frame := vf.CrashSignature(stderr)
-		if !race && (!alive || headline != "") {
-			p.viol("follower-crash", map[string]string{"headline": headline, "frame": frame}, nil)
+		// a process that is gone without any crash report on stderr and that was ended by a
+		// signal from outside (SIGKILL: the kernel's out-of-memory killer on a loaded machine)
+		// says nothing about the node
+		state := ""
+		if !alive && proc.Cmd.ProcessState != nil {
+			state = proc.Cmd.ProcessState.String()
 		}
-		if race && !alive {
-			p.viol("follower-crash", map[string]string{"headline": headline, "frame": frame}, nil)
+		if !alive && headline == "" && (strings.Contains(state, "killed") || strings.Contains(state, "terminated") || state == "exit status 0") {
+			p.r.Count("follower.ended-by-signal", 1)
+			p.r.Inconclusive("follower process of " + p.id + " ended without a crash report: " + state)
+		} else {
+			if !race && (!alive || headline != "") {
+				p.viol("follower-crash", map[string]string{"headline": headline, "frame": frame, "state": state}, nil)
+			}
+			if race && !alive {
+				p.viol("follower-crash", map[string]string{"headline": headline, "frame": frame, "state": state}, nil)
+			}
 		}
 	}()
 
